@@ -550,6 +550,17 @@ fn dictzip_store(preset: &str, dir: &str) -> Result<DictZipBlobStore, String> {
             let _ = std::fs::remove_file(&p);
             return r;
         }
+        "bfss" | "bfzo" | "bffl" => {
+            use zipora::config::nest_louds_trie::NestLoudsTrieConfig;
+            use zipora::containers::specialized::{FixedLenStrVec, SortableStrVec, ZoSortedStrVec};
+            let nc = NestLoudsTrieConfig::default();
+            let words: Vec<String> = TRAIN_TEXT.chunks(8).map(|c| String::from_utf8_lossy(c).to_string()).collect();
+            return match preset {
+                "bfss" => { let mut v = SortableStrVec::new(); for w in &words { v.push_str(w).map_err(e)?; } DictZipBlobStore::build_from_sortable_str_vec(&v, &nc) }
+                "bfzo" => DictZipBlobStore::build_from_zo_sorted_str_vec(&ZoSortedStrVec::from_strings(words).map_err(e)?, &nc),
+                _ => { let mut v = FixedLenStrVec::<8>::new(); for w in words.iter().filter(|w| w.len() == 8) { v.push(w).map_err(e)?; } DictZipBlobStore::build_from_fixed_len_str_vec(&v, &nc) }
+            }.map_err(e);
+        }
         // the constructors that take the trie configuration of the C++ API
         "bfts" | "bfts_fast" | "bfts_q" | "bfv8" => {
             use zipora::config::nest_louds_trie::{NestLoudsTrieConfig, OptimizationFlags};
@@ -700,6 +711,11 @@ fn rec_bytes(v: &Value) -> Vec<u8> {
         3 => (0..len).map(|i| (i as u64 + seed) as u8).collect(),
         _ => (0..len).map(|_| if r.chance(7, 8) { b'a' } else { b'b' }).collect(),
     }
+}
+/// n records of 0..max_len bytes (every 5th one empty, every 7th one of the full length), contents from `seed`
+fn gen_many(n: u64, max_len: u64, seed: u64) -> Vec<Vec<u8>> {
+    let mut r = Rng::new(seed ^ 0x6E6);
+    (0..n).map(|i| { let len = if i % 5 == 4 { 0 } else if i % 7 == 6 { max_len } else { r.below(max_len + 1) }; let b = (i as u8).wrapping_mul(31).wrapping_add(seed as u8); (0..len).map(|j| b.wrapping_add(j as u8)).collect() }).collect()
 }
 fn gen_rec(r: &mut Rng, common_len: u64) -> Value {
     let len = match r.below(16) {
@@ -965,6 +981,32 @@ fn run_history(cx: &mut Ctx, case: &Value, force_coq: bool) {
                             shadow.insert(*id, d); issued.push(*id); ever.insert(*id);
                         }
                     }
+                }
+            }
+            "bulk" => {
+                // many records at once (described by [n, max_len, seed]): through put_batch where there is one, else put by put
+                let mut recs = gen_many(op[1].as_u64().unwrap_or(0), op[2].as_u64().unwrap_or(1), op[3].as_u64().unwrap_or(0));
+                recs.retain(|d| !put_may_refuse(&spec, d));
+                coq_ok = false; xt!(|x: &mut XTrace| x.ok = false);
+                let ids: Vec<RecordId> = if st.has_batch() {
+                    let rc = recs.clone();
+                    match guarded(|| st.put_batch_dyn(rc)) {
+                        Err(p) => { failure = fail(format!("put_batch of {} records panicked: {}", recs.len(), p)); break 'ops; }
+                        Ok(Err(_)) if finalized => continue,
+                        Ok(Err(e)) => { failure = fail(format!("put_batch of {} records refused: {}", recs.len(), e)); break 'ops; }
+                        Ok(Ok(ids)) => ids,
+                    }
+                } else {
+                    let mut ids = vec![];
+                    for d in &recs { match guarded(|| st.bs().put(d)) { Ok(Ok(id)) => ids.push(id), Ok(Err(_)) if finalized => {} , r => { failure = fail(format!("put #{} of the bulk refused: {:?}", ids.len(), r.map(|x| x.map_err(|e| e.to_string())))); break 'ops; } } }
+                    ids
+                };
+                let _ = xlog_take();
+                if ids.len() != recs.len() { if finalized { continue; } failure = fail(format!("{} records stored, {} ids returned", recs.len(), ids.len())); break 'ops; }
+                cx.sum.dist("bulk_ops");
+                for (id, d) in ids.iter().zip(recs.into_iter()) {
+                    if shadow.contains_key(id) { failure = fail(format!("bulk put returned id {} which is the id of another live record", id)); break 'ops; }
+                    all_put.push(d.clone()); shadow.insert(*id, d); issued.push(*id); ever.insert(*id);
                 }
             }
             "rm" => {
@@ -1264,6 +1306,44 @@ fn gen_history_sized(r: &mut Rng, spec: &str, max_ops: u64, small: bool) -> Valu
     json!({"cell": spec, "kind": "history", "ops": ops})
 }
 
+/// Deterministic history with thousands of records: caches evict, maps grow, counters leave the small range; then the usual
+/// operations on ids from the beginning, the middle and the end.
+fn gen_bulk_history(spec: &str, n: u64, max_len: u64, salt: u64) -> Value {
+    let n1 = n as usize;
+    let mut ops: Vec<Value> = vec![json!(["put", [2, 30, salt]]), json!(["bulk", n, max_len, salt]), json!(["len"])];
+    for k in [0usize, 1, n1 / 2, n1 - 1, n1, n1 + 1] { ops.push(json!(["get", {"i": k}])); }
+    ops.push(json!(["rmb", [{"i": 1}, {"i": n1 / 2}, {"i": n1}]]));
+    ops.push(json!(["hk", salt + 11]));
+    ops.push(json!(["bulk", 70, max_len, salt + 1]));
+    ops.push(json!(["iter"]));
+    for k in [0usize, 1, 2, n1 / 2, n1 / 2 + 1, n1, n1 + 3, n1 + 70] { ops.push(json!(["get", {"i": k}])); }
+    ops.push(json!(["rm", {"i": 0}]));
+    ops.push(json!(["finalize"]));
+    ops.push(json!(["getb", [{"i": 0}, {"i": 2}, {"i": n1 + 5}]]));
+    ops.push(json!(["reopen"]));
+    ops.push(json!(["len"]));
+    json!({"cell": spec, "kind": "history", "ops": ops})
+}
+
+/// One scripted history per stack that goes through every secondary entry point the stack has, each followed by ordinary
+/// operations that read what it left behind (operations a stack does not have are skipped by the runner).
+fn gen_entry_history(r: &mut Rng, spec: &str, salt: u64) -> Value {
+    let zero = base_of(spec).starts_with("zero");
+    let mut rec = |r: &mut Rng| if zero { json!([0, 0, 0]) } else { json!([r.below(5), *r.pick(&[1u64, 3, 9, 17, 40, 64, 70, 200, 700]), r.below(1000)]) };
+    let all = |ops: &mut Vec<Value>, n: usize| for k in 0..n { ops.push(json!(["get", {"i": k}])); };
+    let mut ops: Vec<Value> = vec![];
+    ops.push(json!(["put", rec(r)])); ops.push(json!(["put", rec(r)])); ops.push(json!(["batch", [rec(r), rec(r)]]));
+    ops.push(json!(["get", {"i": 0}])); ops.push(json!(["hk", salt * 17 + 1])); ops.push(json!(["iter"]));
+    ops.push(json!(["clone", 0])); ops.push(json!(["put", rec(r)])); ops.push(json!(["rm", {"i": 1}])); ops.push(json!(["hk", salt * 29 + 2])); all(&mut ops, 5);
+    ops.push(json!(["clone", 1])); ops.push(json!(["put", rec(r)])); ops.push(json!(["retrain", salt])); all(&mut ops, 6);
+    ops.push(json!(["put", rec(r)])); ops.push(json!(["rewrap", salt])); ops.push(json!(["put", rec(r)])); ops.push(json!(["getb", [{"i": 7}, {"i": 1}, {"i": 0}]]));
+    ops.push(json!(["hk", salt * 31 + 8])); ops.push(json!(["hk", salt * 37 + 9])); ops.push(json!(["rmb", [{"i": 2}, {"i": 0}]])); ops.push(json!(["iter"])); all(&mut ops, 8);
+    ops.push(json!(["hk", salt * 41 + 10])); ops.push(json!(["put", rec(r)])); ops.push(json!(["reopen"])); ops.push(json!(["retrain", salt + 1])); ops.push(json!(["put", rec(r)])); all(&mut ops, 10);
+    ops.push(json!(["finalize"])); ops.push(json!(["put", rec(r)])); ops.push(json!(["rm", {"i": 3}])); all(&mut ops, 11); ops.push(json!(["iter"])); ops.push(json!(["len"]));
+    ops.push(json!(["clear", salt])); ops.push(json!(["put", rec(r)])); ops.push(json!(["hk", salt * 43 + 5])); all(&mut ops, 12); ops.push(json!(["iter"])); ops.push(json!(["len"]));
+    json!({"cell": spec, "kind": "history", "ops": ops})
+}
+
 /// Deterministic history around the sizes at which something switches inside a store (2^12, 2^16, 2^20, the compression
 /// threshold of the DictZip presets ...): records of exactly those lengths, compressible and not, mixed with the other operations.
 fn gen_threshold_history(spec: &str, sizes: &[u64], salt: u64) -> Value {
@@ -1353,7 +1433,9 @@ fn seeded_wraps(case: &Value) -> bool {
 
 fn run_build(cx: &mut Ctx, case: &Value, _force_coq: bool) {
     let spec = case["cell"].as_str().unwrap_or("").to_string();
-    let recs: Vec<Vec<u8>> = case["recs"].as_array().map(|a| a.iter().map(rec_bytes).collect()).unwrap_or_default();
+    let mut recs: Vec<Vec<u8>> = case["recs"].as_array().map(|a| a.iter().map(rec_bytes).collect()).unwrap_or_default();
+    // many records are described, not spelled out: [n, max_len, seed]
+    if let Some(g) = case.get("recs_gen") { recs = gen_many(g[0].as_u64().unwrap_or(0), g[1].as_u64().unwrap_or(1), g[2].as_u64().unwrap_or(0)); }
     let cell = format!("build/{}", spec);
     cx.sum.eval(&cell, &case.to_string(), recs.len() >= 2);
     cx.sum.dist(&format!("build_records_bucket={}", match recs.len() { 0 => "0", 1..=9 => "1-9", 10..=63 => "10-63", 64..=129 => "64-129", _ => "130+" }));
@@ -1363,6 +1445,7 @@ fn run_build(cx: &mut Ctx, case: &Value, _force_coq: bool) {
     let small = recs.len() <= 140 && recs.iter().map(|d| d.len()).sum::<usize>() <= 1600;
     let recs_coq = format!("[{}]", recs.iter().map(|d| coq_bytes(d)).collect::<Vec<_>>().join("; "));
     let plain_env_dir = cx.env.dir.clone();
+    let mut refused = false;
     let r = guarded(|| -> Option<String> {
         match kind {
             "zipoffset" | "zipoffset_batch" => {
@@ -1380,6 +1463,7 @@ fn run_build(cx: &mut Ctx, case: &Value, _force_coq: bool) {
                 let store = match store {
                     Ok(s) => s,
                     Err(e) => {
+                        refused = true;
                         if kind == "zipoffset" && zo_capacity_exceeded(&cfg, &stored_lens) {
                             if cfg.compress_level == 0 && small { coq_term = Some(format!("CZip {} {} false []", zcfg_coq(&cfg), recs_coq)); }
                             return None;
@@ -1573,6 +1657,7 @@ fn run_build(cx: &mut Ctx, case: &Value, _force_coq: bool) {
         }
     });
     match r { Ok(x) => failure = x, Err(p) => failure = Some(format!("panicked: {}", p)) }
+    if refused { cx.sum.dist(&format!("builder_refusals:{}", kind)); }
     if let Some(m) = failure {
         let class = if kind == "memory_seeded" && seeded_wraps(case) { Some("memory_id_wraparound") } else if kind == "plain_seeded" && seeded_wraps(case) { Some("plain_id_wraparound") } else { None };
         cx.sum.fail(&cell, class, case.clone(), &m);
@@ -1602,13 +1687,23 @@ fn gen_records(r: &mut Rng, allow_big: bool) -> Vec<Value> {
     }).collect()
 }
 
+/// a key in a case: a string, or a list of byte values (keys that are not text)
+fn key_bytes(v: &Value) -> Vec<u8> {
+    match v { Value::String(s) => s.as_bytes().to_vec(), Value::Array(a) => a.iter().map(|x| x.as_u64().unwrap_or(0) as u8).collect(), _ => vec![] }
+}
+fn gen_key(r: &mut Rng, wide: bool, long: bool) -> Value {
+    if wide && r.chance(1, 4) {
+        // bytes that are no text, a zero byte inside, a key of 300 bytes, keys that are prefixes of each other
+        match r.below(8) { 0 => json!([0]), 1 => json!([255]), 2 => json!([0, 0]), 3 => json!([255, 254, 0]), 4 => json!([107, 0, 49]), 5 if long => json!(vec![107u8; 300]), 6 if long => json!(vec![107u8; 256]), 5 | 6 => json!(vec![107u8; 255]), _ => json!(vec![107u8; 254]) }
+    } else { json!(*r.pick(&KEYS[..])) }
+}
 const KEYS: [&str; 14] = ["", "a", "ab", "abc", "abd", "b", "ba", "k1", "k10", "k2", "key", "keyed", "z", "zz"];
 fn gen_keyed(r: &mut Rng, spec: &str) -> Value {
     let n = r.range(4, 40);
     let mut ops: Vec<Value> = vec![];
     let mut issued = 0usize;
     for _ in 0..n {
-        let key = *r.pick(&KEYS[..]);
+        let key = gen_key(r, spec.ends_with('+'), true);
         match r.below(if spec.ends_with('+') { 126 } else { 100 }) {
             0..=39 => { ops.push(json!(["putk", key, gen_rec(r, 5)])); issued += 1; }
             40..=44 => { ops.push(json!(["put", gen_rec(r, 5)])); issued += 1; }
@@ -1619,7 +1714,7 @@ fn gen_keyed(r: &mut Rng, spec: &str) -> Value {
             96..=99 => ops.push(json!(["len"])),
             // the rest of the keyed API
             100..=107 => ops.push(json!(["hask", key])),
-            108..=111 => { let k = r.range(0, 4); let ents: Vec<Value> = (0..k).map(|_| json!([*r.pick(&KEYS[..]), gen_rec(r, 5)])).collect(); issued += k as usize; ops.push(json!(["putkb", ents])); }
+            108..=111 => { let k = r.range(0, 4); let ents: Vec<Value> = (0..k).map(|_| json!([gen_key(r, true, false), gen_rec(r, 5)])).collect(); issued += k as usize; ops.push(json!(["putkb", ents])); }
             112..=114 => ops.push(json!(["keys"])),
             115..=117 => ops.push(json!(["kprefix", *r.pick(&["", "a", "ab", "k", "k1", "ke", "z", "q"])])),
             118..=120 => ops.push(json!(["iter"])),
@@ -1656,7 +1751,7 @@ fn run_keyed(cx: &mut Ctx, case: &Value) {
             match op[0].as_str().unwrap_or("") {
                 "putk" | "put" => {
                     let keyed = op[0] == "putk";
-                    let key: Vec<u8> = if keyed { op[1].as_str().unwrap_or("").as_bytes().to_vec() } else { vec![] };
+                    let key: Vec<u8> = if keyed { key_bytes(&op[1]) } else { vec![] };
                     let data = rec_bytes(if keyed { &op[2] } else { &op[1] });
                     let res = if keyed { st.put_with_key(&key, &data) } else { st.put(&data) };
                     match res {
@@ -1665,12 +1760,13 @@ fn run_keyed(cx: &mut Ctx, case: &Value) {
                             shadow.insert(id, data); issued.push(id);
                             if keyed { key_of.insert(id, key.clone()); latest.insert(key, id); }
                         }
-                        Err(e) => if !finalized { return at(format!("put refused: {}", e)); },
+                        // the LOUDS strategy documents a key limit of 255 bytes: longer keys may be refused (nothing is stored then)
+                        Err(e) => if !finalized && key.len() <= 255 { return at(format!("put refused: {}", e)); },
                     }
                 }
                 "putkb" => {
                     // put_batch_with_keys: one fresh id per entry, in order
-                    let ents: Vec<(Vec<u8>, Vec<u8>)> = op[1].as_array().map(|a| a.iter().map(|e| (e[0].as_str().unwrap_or("").as_bytes().to_vec(), rec_bytes(&e[1]))).collect()).unwrap_or_default();
+                    let ents: Vec<(Vec<u8>, Vec<u8>)> = op[1].as_array().map(|a| a.iter().map(|e| (key_bytes(&e[0]), rec_bytes(&e[1]))).collect()).unwrap_or_default();
                     match st.put_batch_with_keys(ents.clone()) {
                         Ok(ids) => {
                             if ids.len() != ents.len() { return at(format!("put_batch_with_keys of {} entries returned {} ids", ents.len(), ids.len())); }
@@ -1688,7 +1784,7 @@ fn run_keyed(cx: &mut Ctx, case: &Value) {
                     match st.remove(id) { Ok(()) => { shadow.remove(&id); } Err(e) => if live && !finalized { return at(format!("remove({}) of a live record failed: {}", id, e)); } }
                 }
                 "hask" => {
-                    let key = op[1].as_str().unwrap_or("").as_bytes().to_vec();
+                    let key = key_bytes(&op[1]);
                     let got = st.contains_key(&key);
                     let any_live = key_of.iter().any(|(id, kk)| *kk == key && shadow.contains_key(id));
                     match latest.get(&key) {
@@ -1697,7 +1793,7 @@ fn run_keyed(cx: &mut Ctx, case: &Value) {
                     }
                 }
                 "keys" | "kprefix" => {
-                    let p: Vec<u8> = if op[0] == "keys" { vec![] } else { op[1].as_str().unwrap_or("").as_bytes().to_vec() };
+                    let p: Vec<u8> = if op[0] == "keys" { vec![] } else { key_bytes(&op[1]) };
                     let got = match if op[0] == "keys" { st.keys() } else { st.keys_with_prefix(&p) } { Ok(v) => v, Err(e) => return at(format!("key listing failed: {}", e)) };
                     for kk in &got { if !kk.starts_with(&p) { return at(format!("key listing returned {:?} without the prefix", String::from_utf8_lossy(kk))); } }
                     for (kk, id) in &latest {
@@ -1719,7 +1815,7 @@ fn run_keyed(cx: &mut Ctx, case: &Value) {
                 "get" => { let id = resolve(&op[1], &issued); if let Some(m) = probe(&st, id, &shadow) { return at(m); } }
                 "len" => { if st.len() != shadow.len() { return at(format!("len() = {} but {} records are live", st.len(), shadow.len())); } }
                 "getk" => {
-                    let key = op[1].as_str().unwrap_or("").as_bytes().to_vec();
+                    let key = key_bytes(&op[1]);
                     let got = st.get_by_key(&key);
                     // records put under this key that are still live
                     let live_same: Vec<&Vec<u8>> = key_of.iter().filter(|(id, kk)| **kk == key && shadow.contains_key(id)).map(|(id, _)| &shadow[id]).collect();
@@ -1733,7 +1829,7 @@ fn run_keyed(cx: &mut Ctx, case: &Value) {
                     }
                 }
                 "prefix" => {
-                    let p = op[1].as_str().unwrap_or("").as_bytes().to_vec();
+                    let p = key_bytes(&op[1]);
                     let got = match st.get_by_prefix(&p) { Ok(v) => v, Err(e) => return at(format!("get_by_prefix failed: {}", e)) };
                     for (kk, d) in &got {
                         if !kk.starts_with(&p) { return at(format!("get_by_prefix returned key {:?} without the prefix", String::from_utf8_lossy(kk))); }
@@ -1806,7 +1902,8 @@ const HISTORY_CELLS: [&str; 34] = [
 ];
 const HISTORY_CELLS_MORE: [&str; 6] = ["dictzip_binary", "dictzip_log", "dictzip_realtime", "dictzip_huff4", "dictzip_fse", "rans_t/zstd1/plain"];
 /// Oracle breadth: constructors, presets and options the first rounds never built a store with.
-const HISTORY_CELLS_BREADTH: [&str; 51] = [
+const HISTORY_CELLS_BREADTH: [&str; 54] = [
+    "dictzip_bfss", "dictzip_bfzo", "dictzip_bffl",
     "memory_default", "memory_fd", "memory_fd0", "zstd3_typed", "plain_new", "plain_over", "zero_default", "zero_finish",
     "zstd0/memory", "zstdneg/memory", "zstd22/memory", "zstd99/memory", "rans/zero",
     "cached_new/memory", "cached_perf/memory", "cached_default/memory", "cached_shared/memory", "cached_shared_wb/memory", "cached_shared_wa/memory",
@@ -1820,7 +1917,8 @@ const PAGE: [u64; 4] = [4095, 4096, 4097, 8192];
 const P16: [u64; 4] = [65535, 65536, 65537, 16384];
 const P16_20: [u64; 5] = [65535, 65536, 65537, 1 << 20, (1 << 20) + 1];
 /// (stack, record sizes): 2^12 (page of the page cache), 2^16, 2^20, and the compression threshold of each DictZip preset
-const THRESHOLD_CELLS: [(&str, &[u64]); 34] = [
+const THRESHOLD_CELLS: [(&str, &[u64]); 37] = [
+    ("plain_new", &P16_20), ("dictzip_default", &[1 << 20, 65536, 1 << 17]), ("zstd22/memory", &[(1 << 17) - 1, 1 << 17, (1 << 17) + 1]),
     ("memory", &P16_20), ("zstd1/memory", &P16_20), ("zstd3_typed", &P16_20), ("zstd19/memory", &P16), ("huffman/memory", &P16_20), ("huffman_t/memory", &P16_20),
     ("rans_t/memory", &P16_20), ("dict_t/memory", &P16), ("cached_wt/memory", &PAGE), ("cached_wb/memory", &P16_20), ("cached_wa/memory", &PAGE), ("cached_shared_wb/memory", &PAGE),
     ("cached_mem/memory", &P16), ("cached_sec/memory", &PAGE), ("cached_perf/memory", &P16), ("zstd3/cached_wt/memory", &P16), ("cached_wb/huffman_t/memory", &P16), ("plain", &P16), ("zstd3/plain", &P16),
@@ -1837,6 +1935,13 @@ const BUILD_CELLS_BREADTH: [&str; 38] = [
     "nlt_from:sortable", "nlt_from:zosorted", "nlt_from:fixedlen", "nlt_from:vec_u8", "nlt_from:slice_u8", "nlt_from:kv",
     "simplezip:1,1", "simplezip:8,256", "simplezip:1,1048576,10", "simplezip:0,5", "simplezip:9,8", "simplezip:1,1048577", "simplezip:2,6,0,255",
     "mixed:1000", "mixed:1",
+];
+/// (stack, number of records, longest record): 2^16 + 1 records where a record is cheap, thousands elsewhere - more than the read
+/// cache of DictZip (64 entries), the key cache of the trie store (256 ... 4096 keys), the page cache (256 KiB) hold
+const BULK_CELLS: [(&str, u64, u64); 16] = [
+    ("memory", 65537, 6), ("memory_cap", 5000, 300), ("zero", 65537, 0), ("zstd1/memory", 5000, 120), ("huffman_t/memory", 5000, 120), ("rans_t/memory", 5000, 40),
+    ("cached_wt/memory", 5000, 300), ("cached_wb/memory", 5000, 300), ("cached_shared_wb/memory", 3000, 500), ("zstd3/cached_wt/memory", 3000, 200),
+    ("nlt", 4500, 20), ("nlt_mem", 600, 20), ("nlt_cfgb", 1200, 20), ("dictzip_small10", 1500, 90), ("dictzip_cache1", 300, 90), ("plain", 300, 50),
 ];
 const MODELLED_STACKS: [&str; 30] = [
     "memory", "memory_cap", "plain", "zero", "zstd1/memory", "zstd3/memory", "zstd19/memory", "zstd3/plain",
@@ -1911,11 +2016,23 @@ pub fn run(args: &Args) {
             let _ = round;
         }
     }
+    // 2b'. one scripted pass through every secondary entry point, per stack
+    for salt in 0..(if args.thorough { 12u64 } else { 2 }) {
+        let mut all_cells: Vec<&str> = cells.clone();
+        all_cells.extend_from_slice(&HISTORY_CELLS_BREADTH);
+        for spec in all_cells { let c = gen_entry_history(&mut rng, spec, salt + args.seed % 13); run_case(&mut cx, &c, false); cx.sum.dist("entry_point_histories"); }
+    }
     // 2c. deterministic histories with records of exactly the sizes at which something switches
     for (i, (spec, sizes)) in THRESHOLD_CELLS.iter().enumerate() {
         let c = gen_threshold_history(spec, sizes, (args.seed % 7) + i as u64);
         run_case(&mut cx, &c, false);
         cx.sum.dist("threshold_histories");
+    }
+    // 2d. histories with thousands of records
+    for (i, (spec, n, max_len)) in BULK_CELLS.iter().enumerate() {
+        let c = gen_bulk_history(spec, *n, *max_len, (args.seed % 5) + i as u64);
+        run_case(&mut cx, &c, false);
+        cx.sum.dist("bulk_histories");
     }
     // extra volume on the modelled cell
     for _ in 0..(if args.thorough { 3000 } else { 450 }) {
@@ -1957,6 +2074,15 @@ pub fn run(args: &Args) {
         // variable-length bytes (MixedLen, fixed length 3) / fragments (SimpleZip, one byte each) adding up to exactly `total`
         let recs = vec![json!([3, 3, 1]), json!([1, total - 9, total]), json!([3, 3, 2]), json!([4, 9, 5]), json!([0, 0, 0]), json!([3, 3, 3])];
         for spec in ["mixed:3", "mixed", "simplezip:1,1", "simplezip:1,2,97"] { run_case(&mut cx, &json!({"cell": spec, "kind": "build", "recs": recs, "plan": total}), false); cx.sum.dist("width_switch_cases"); }
+    }
+    // 3e. record counts of 2^12 .. 2^16 + 1 (thousands of index blocks, multi-level rank directories, 17-bit boundaries)
+    for (spec, n, max_len) in [("zipoffset:c0k0od", 65537u64, 3u64), ("zipoffset:default", 4097, 40), ("zipoffset:perf", 16385, 9), ("zipoffset:c0k2om", 8193, 5), ("zipoffset_batch:c0k0od", 8191, 7),
+                               ("mixed", 65537, 3), ("mixed:2", 20001, 4), ("simplezip", 65537, 12), ("simplezip:1,1", 20000, 5), ("suv:default", 65537, 200), ("suv:perf", 40000, 3000), ("suv:4,8,16", 4000, 15),
+                               ("zerofinish", 65537, 0), ("zeroputs", 5000, 0), ("memory_from_data", 65537, 5), ("nlt_builder2:perf", 3000, 12), ("nlt_builder", 1500, 12)] {
+        let mut c = json!({"cell": spec, "kind": "build", "recs_gen": [n, max_len, (args.seed % 11) + n], "plan": n + args.seed % 3});
+        if spec.starts_with("zipoffset_batch") { c["batch"] = json!(100); }
+        run_case(&mut cx, &c, false);
+        cx.sum.dist("many_record_builds");
     }
     for (cfgname, sw, bsz) in [("c0k0x4,32,16", 16u32, 16usize), ("c0k2x4,32,16", 16, 16), ("c0k0x5,24,20", 20, 32)] {
         let extra = if cfgname.as_bytes()[3] == b'2' { 4usize } else { 0 };
